@@ -78,6 +78,22 @@ fn pipeline_job(pipe: Pipe, form: Form, len: usize) -> Job {
         world::bump_step();
         r.sub.unsubscribe();
         r.drain();
+        // "after unsubscribe() any remaining handle to the same subscription
+        // reports closed": the subscriber a `create` producer kept is one
+        let open_handles: usize = match form {
+          Form::Local => r.cx.raw_l.iter().map(|v| v.borrow().iter().filter(|s| !s.is_closed()).count()).sum(),
+          Form::Threads => r.cx.raw_t.iter().map(|v| v.lock().unwrap().iter().filter(|s| !s.is_closed()).count()).sum(),
+        };
+        if open_handles > 0 {
+          obs.fail(
+            format!("c17:producer-handle-open-after-unsubscribe:{}:{}", form_name(form), top(&pipe)),
+            format!(
+              "{} after [{}]: unsubscribe() has returned, {open_handles} subscriber handle(s) kept by the create() producer still report open",
+              pipe.show(),
+              hist.join(" ")
+            ),
+          );
+        }
       }
       sample(&r, obs, &hist, &mut closed_at);
       if let Some((n, at)) = closed_at {
@@ -433,6 +449,11 @@ pub fn plan(tier: Tier) -> Plan {
     for p in chains(&Pipe::S(Src::Raw(0)), &super::c01::all_ops(false), 1) {
       n_pipes += 1;
       jobs.push(pipeline_job(p, form, len + 1));
+    }
+    // a producer that emits inside the subscription call and keeps its subscriber
+    for p in chains(&Pipe::S(Src::RawEager(0)), &super::c01::all_ops(false), 1) {
+      n_pipes += 1;
+      jobs.push(pipeline_job(p, form, len));
     }
     for p in chains(&Pipe::hot(0), &super::c01::all_ops(false), depth) {
       if p.depth() < 2 {
